@@ -274,6 +274,45 @@ theorem ingest_clock {d d' : CState ρ} {k : Pkt} {o : List (COut ω)} {t : Ms} 
   rw [hk] at ho
   exact ingest_before hc ho
 
+/-- every scheduler of `d'` has the configuration (browsed types …) of a scheduler of `d` -/
+def CfgsFrom (d d' : CState ρ) : Prop := ∀ cs' ∈ d'.scheds, ∃ cs ∈ d.scheds, cs'.1 = cs.1
+
+/-- **a datagram cannot change what is browsed**: the scheduler configurations are a frame of the composed downstream, ingestion included -/
+theorem cfgs_frame : Frame (Comp.down lower possible ettl R) CfgsFrom :=
+  ⟨fun _ cs hcs => ⟨cs, hcs, rfl⟩,
+   fun _ _ _ h1 h2 cs hcs => by
+     obtain ⟨cs1, hcs1, e1⟩ := h2 cs hcs
+     obtain ⟨cs0, hcs0, e0⟩ := h1 cs1 hcs1
+     exact ⟨cs0, hcs0, e1.trans e0⟩,
+   fun d ks u d' qa h cs hcs => by
+     have := (answer_fields lower ettl R h).1
+     rw [this] at hcs
+     exact ⟨cs, hcs, rfl⟩,
+   fun d t' q cs hcs => by
+     have : ((Comp.down lower possible ettl R).enqueue d t' q).1.scheds = d.scheds := (enqueue_fields R d t' q).1
+     rw [this] at hcs
+     exact ⟨cs, hcs, rfl⟩⟩
+
+theorem ingest_cfgs {d d' : CState ρ} {k : Pkt} {o : List (COut ω)}
+    (h : (Comp.down lower possible ettl R).ingest d k = .ok (d', o)) : CfgsFrom d d' := by
+  have h' : Comp.ingest lower possible R d k = .ok (d', o) := h
+  unfold Comp.ingest at h'
+  split at h'
+  · cases h'
+  · split at h'
+    · simp only [Except.ok.injEq, Prod.mk.injEq] at h'
+      rw [← h'.1]
+      exact fun cs hcs => ⟨cs, hcs, rfl⟩
+    · split at h'
+      · cases h'
+      · rename_i ss' hss
+        split at h'
+        · cases h'
+        · simp only [Except.ok.injEq, Prod.mk.injEq] at h'
+          rw [← h'.1]
+          intro cs hcs
+          exact (schedsStep_heapP lower possible (fun _ => True) k.now _ (fun _ _ => trivial) (fun _ _ _ _ => trivial) hss cs hcs).2
+
 end comp
 
 /-! ### the timer blocks leave the cache alone -/
